@@ -526,7 +526,15 @@ impl Simulation {
                     self.time.write(target_time);
                     drop(scheduler_queue);
 
-                    self.clock.synchronize(target_time);
+                    if let SyncStatus::OutOfSync(lag) = self.clock.synchronize(target_time) {
+                        if let Some(tolerance) = &self.clock_tolerance {
+                            if &lag > tolerance {
+                                self.is_terminated = true;
+
+                                return Err(ExecutionError::OutOfSync(lag));
+                            }
+                        }
+                    }
                     return Ok(());
                 }
                 Err(e) => return Err(e),
